@@ -766,7 +766,20 @@ mutant("idx-shakashaka-guard", "C11", PZ + "shakashaka.py", "            if y > 
 mutant("idx-fivecells-guard", "C11", PZ + "fivecells.py", "                if y > 0 and problem[y - 1][x] >= -1:", "                if problem[y - 1][x] >= -1:", "IDX-1")
 mutant("idx-geradeweg-guard", "C11", PZ + "geradeweg.py", "([grid_frame.horizontal[y, x - 1]] if x > 0 else [])", "([grid_frame.horizontal[y, x - 1]] if x >= 0 else [])", "IDX-1")
 mutant("dk-lits-rows", "C11", PZ + "lits.py", "    block_id = [[-1 for _ in range(width)] for _ in range(height)]\n    for i, block in enumerate(blocks):\n        for y, x in block:\n            block_id[y][x] = i\n\n    num_straight", "    block_id = [[-1 for _ in range(width)] for _ in range(width)]\n    for i, block in enumerate(blocks):\n        for y, x in block:\n            block_id[y][x] = i\n\n    num_straight", "IDX-2")
-mutant("dk-aquarium-rows", "C11", PZ + "aquarium.py", "    block_id = [[-1 for _ in range(width)] for _ in range(height)]\n    for i, block in enumerate(blocks):\n        for y, x in block:\n            block_id[y][x] = i\n    for y in range(height):", "    block_id = [[-1 for _ in range(width)] for _ in range(width)]\n    for i, block in enumerate(blocks):\n        for y, x in block:\n            block_id[y][x] = i\n    for y in range(height):", "IDX-2", "the original defect")
+# (the block_id table of solve_aquarium is gone since the one-level-per-tank fix; its rules are now under PZ-X)
+mutant("pzx-aquarium-adjacent-only", "C11", PZ + "aquarium.py", "            for cell in rows[y][1:]:\n                solver.ensure(is_water[first] == is_water[cell])\n", "            for cell in rows[y][1:]:\n                if cell[1] == first[1] + 1:\n                    solver.ensure(is_water[first] == is_water[cell])\n", "PZ-X", "the original defect: arms of a U-shaped tank unlinked")
+mutant("pzx-heyawake-horizontal-scan", "C11", PZ + "heyawake.py", "                while x2 < width - 1:", "                while x2 + 2 < width:", "PZ-X")
+mutant("pzx-akari-sight-stops-early", "C11", PZ + "akari.py", "                for y2 in range(y + 1, height, 1):", "                for y2 in range(y + 1, height - 1, 1):", "PZ-X")
+mutant("pzx-nurikabe-no-2x2", "C11", PZ + "nurikabe.py", '    solver.ensure(is_white.conv2d(2, 2, "or"))\n', "", "PZ-X")
+mutant("pzx-norinori-three", "C11", PZ + "norinori.py", "        solver.ensure(count_true(is_black[block]) == 2)", "        solver.ensure(count_true(is_black[block]) >= 2)", "PZ-X")
+mutant("pzx-creek-counts-white", "C11", PZ + "creek.py", "                        ~is_white[", "                        is_white[", "PZ-X")
+mutant("pzx-star-battle-no-diagonal", "C11", PZ + "star_battle.py", "    solver.ensure(~(has_star[:-1, 1:] & has_star[1:, :-1]))\n", "", "PZ-X")
+mutant("pzx-masyu-black-one-arm", "C11", PZ + "masyu.py", "                solver.ensure((dirs[0] | dirs[2]) & (dirs[1] | dirs[3]))", "                solver.ensure((dirs[0] | dirs[2]) | (dirs[1] | dirs[3]))", "PZ-X")
+mutant("pzx-gokigen-clue-misses-corner", "C11", PZ + "gokigen.py", "                if y < height and x < width:\n                    related.append(edge_type[y, x])", "                if y < height - 1 and x < width:\n                    related.append(edge_type[y, x])", "PZ-X")
+mutant("pzx-slither-clue-zero-ignored", "C11", PZ + "slitherlink.py", "            if problem[y][x] >= 0:", "            if problem[y][x] > 0:", "PZ-X")
+mutant("pzx-yinyang-white-unconnected", "C11", PZ + "yinyang.py", "    graph.active_vertices_connected(solver, ~is_black)\n", "", "PZ-X")
+# the redundant yin-yang constraints (no checkered 2x2, at most two colour changes along the border) follow from the rules
+variant("pzx-yinyang-drop-auxiliary", "C11", PZ + "yinyang.py", "    solver.ensure(count_true(circ_switching) <= 2)\n", "")
 mutant("dk-heyawake-while", "C11", PZ + "heyawake.py", "                while y2 < height - 1:", "                while y2 < height:", "IDX-2")
 mutant("dk-view-transposed", "C11", PZ + "view.py", "    to_left = solver.int_array((height, width), 0, width - 1)", "    to_left = solver.int_array((width, height), 0, width - 1)", "IDX-2")
 mutant("dk-castle-wall-transposed", "C11", PZ + "castle_wall.py", "    is_inside = solver.bool_array((height - 1, width - 1))", "    is_inside = solver.bool_array((width - 1, height - 1))", "IDX-2")
